@@ -188,7 +188,7 @@ class TriggerHandler:
         if len(callbacks) > 0:
             logging.debug("Callbacks registered: %s", callbacks)
             self._callbacks.get().append(
-                CallbackContext(event, file, line, function, callbacks))
+                CallbackContext(event, file, line, function, callbacks, frame))
 
         return self.trace_call
 
@@ -208,6 +208,12 @@ class TriggerHandler:
             if context.at_location(event, file, line, function_name, frame):
                 logging.debug("At callback location %s", context.name)
                 context.process(ctx, event, frame, arg)
+                # the same event also completes whatever else is pending for this very frame (e.g. a method span
+                # and a span on the line that returns)
+                pending = self._callbacks.value
+                while len(pending) > 0 and pending[-1].frame is frame \
+                        and pending[-1].at_location(event, file, line, function_name, frame):
+                    pending.pop().process(ctx, event, frame, arg)
             else:
                 logging.debug("Not at callback location %s", context.name)
                 # else put the context back on the queue
